@@ -19,16 +19,16 @@ for a caller's `dst` alike.  `go_api_source_tie` bundles the statements on the c
   never stuck, any fuel.  `dst.tape.Tape = i.tape.Tape[:end]` cannot panic: the guard `uint64(len) < end` before it
   excludes `end > len`, and `int(end)` is then exact because `len` is a Go `int`.  Hypotheses: `i.lim < 2^63` (and
   `i.off < 2^63` for `Object`) — the model's `Nat` fields are Go `int`s; NO hypothesis on `i.cur`.
-* `root_sim_exact` (`SimRoot`), both values of `dst == nil`: errors ⇔ `(TypeNone, dst, err)` with the store untouched;
-  model `.ok (_, d)` ⇔ returns `(TagToType[d.t], non-nil, nil)` with `*dst = d` (all five fields: the non-nil branch
-  copies `cur`, `off`, `t` and sets `addNext`, `lim`, which is the whole struct), receiver, buffers and every variable
-  outside `rootKeys` untouched; panic ⇔ panic.  Fuel `i.lim + 8`.
-  DIFFERENCE FOUND: the hand model returns `d.type` (`Iter.Type()`: `TypeNone` when `off + addNext > lim`), the source
-  returns `dst.AdvanceInto().Type()` = `Tag.Type()` = `TagToType[tag]`, with no such test.  Witness (`rootWitness_*`): tape
-  `[root|3, integer, 5, root|0]`, `i = {lim 4, off 1, addNext 0, cur 3, t 'r'}`: model `TypeNone` (0), source `TypeInt`
-  (3); the iterators agree (`{lim 2, off 2, addNext 1, cur 0, t 'l'}`).  `RootTypeOK` = the first element lies inside
-  the root's view, or its tag has no type; `root_sim` (`SimRootM`) is the tie under it, `root_type_differs` shows it
-  excludes exactly the inputs on which the model's `Type` is wrong.
+* `root_sim` (`SimRoot`; `root_sim_exact` is the same statement), both values of `dst == nil`: errors ⇔
+  `(TypeNone, dst, err)` with the store untouched; model `.ok (ty, d)` ⇔ returns `(ty, non-nil, nil)` with `*dst = d`
+  (all five fields: the non-nil branch copies `cur`, `off`, `t` and sets `addNext`, `lim`, which is the whole struct),
+  receiver, buffers and every variable outside `rootKeys` untouched; panic ⇔ panic.  Fuel `i.lim + 8`.  NO hypothesis
+  on the tape.  `ty` is `TagToType[tag]` for the tag `AdvanceInto` returned (`root_type`: `= tagToType d.t`), as in
+  the source (`dst.AdvanceInto().Type()` = `Tag.Type()`), with no bounds test.
+  HISTORY: an earlier model returned `d.type` (`Iter.Type()`: `TypeNone` when `off + addNext > lim`); this proof found
+  the difference — witness tape `[root|3, integer, 5, root|0]`, `i = {lim 4, off 1, addNext 0, cur 3, t 'r'}`: that
+  model said `TypeNone` (0), the source `TypeInt` (3).  The model was repaired; the `example`s after `root_sim` replay
+  the witness: model and source now both answer 3 with the iterator `{lim 2, off 2, addNext 1, cur 0, t 'l'}`.
 * `string_sim`: `String()` = `Iter.stringBytes` (a Go string is its bytes) through `stringAt` → `stringByteAt`
   (`BufOK`); fuel 2; afterwards every variable reads as before.
 * `stringCvt_sim` (`SimCvt`): no hand model existed — `stringCvt` is defined here from `stringBytes`, `int`, `uint`,
@@ -166,17 +166,21 @@ theorem root_pre_ok (i : Iter) (b : Bool) (e : Env) (tape : Array UInt64) (fuel 
       simp [Env.get_set, Ne.symm a1, Ne.symm a2, Ne.symm a3, Ne.symm a4, Ne.symm a5, Ne.symm a6, Ne.symm a7,
         Ne.symm b1, Ne.symm b2, Ne.symm b3, Ne.symm b4, Ne.symm b5]
 
-/-- `Iter.Root(dst)`, exactly: what the source returns for each result of the model.  The returned `Type` is
-    `TagToType[tag]` for the tag `AdvanceInto` returned, i.e. `tagToType d.t` (`advanceInto_tag`). -/
+/-- `Iter.Root(dst)` against the hand model `Iter.root`, `Type` included: what the source returns for each result of
+    the model.  The returned `Type` is `TagToType[tag]` for the tag `AdvanceInto` returned, on both sides
+    (`root_type`: it is `tagToType d.t`). -/
 def SimRoot (tape : Array UInt64) (e : Env) (b : Bool) (i : Iter) (o : Out) (r : Res (UInt8 × Iter)) : Prop :=
   match r with
-  | .ok (_, d) => ∃ s, o = .ret s [.u8 (tagToType d.t), .bool true, .bool false] ∧ s.tape = tape ∧
+  | .ok (ty, d) => ∃ s, o = .ret s [.u8 ty, .bool true, .bool false] ∧ s.tape = tape ∧
       iterAt s.env "i" = some i ∧ iterAt s.env "dst" = some d ∧ (∀ k, k ∉ rootKeys → s.env.get k = e.get k)
   | .error _ => o = .ret ⟨e, tape⟩ [.u8 0, .bool (!b), .bool true]
   | .panic => o = .panic
   | .diverge => False
 
-theorem root_sim_exact (pj : PJ) (i : Iter) (b : Bool) (e : Env) (fuel : Nat)
+/-- **`Root(dst)` IS `Iter.root`**, unconditionally: both for `dst == nil` (a fresh copy of `i`) and for a caller's
+    `dst` (only `cur`, `off`, `t` copied, `addNext`, `lim` set: all five fields then coincide with the copy), the
+    returned `Type` included.  Fuel `i.lim + 8`. -/
+theorem root_sim (pj : PJ) (i : Iter) (b : Bool) (e : Env) (fuel : Nat)
     (hI : iterAt e "i" = some i) (hN : e.get "dst==nil" = some (.bool b))
     (hl : i.lim ≤ pj.tape.size) (hlim : i.lim < 2^63) (hf : i.lim + 8 ≤ fuel) :
     SimRoot pj.tape e b i (runFun goFuns goIter_Root fuel ⟨e, pj.tape⟩) (i.root pj) := by
@@ -241,10 +245,16 @@ theorem root_sim_exact (pj : PJ) (i : Iter) (b : Bool) (e : Env) (fuel : Nat)
   · have ht' : (i.t != 114) = true := by simp [ht]
     simp [goIter_Root, g4, hN, ht, ht', SimRoot]
 
-/-! ## `Iter.Root` against the hand model's `Type`: a difference, and the inputs it concerns -/
+/-- the same statement under its earlier name (it used to be the tie up to the returned `Type`) -/
+theorem root_sim_exact (pj : PJ) (i : Iter) (b : Bool) (e : Env) (fuel : Nat)
+    (hI : iterAt e "i" = some i) (hN : e.get "dst==nil" = some (.bool b))
+    (hl : i.lim ≤ pj.tape.size) (hlim : i.lim < 2^63) (hf : i.lim + 8 ≤ fuel) :
+    SimRoot pj.tape e b i (runFun goFuns goIter_Root fuel ⟨e, pj.tape⟩) (i.root pj) :=
+  root_sim pj i b e fuel hI hN hl hlim hf
 
-/-- the hand model reports `Iter.Type()` of the new iterator … -/
-theorem root_type (pj : PJ) (i : Iter) (ty : UInt8) (d : Iter) (h : i.root pj = .ok (ty, d)) : ty = d.type := by
+/-- the model reports `Tag.Type()` of the tag `AdvanceInto` returned, which is the tag of the new iterator:
+    `TagToType[d.t]` — no bounds test (unlike `Iter.Type()`) -/
+theorem root_type (pj : PJ) (i : Iter) (ty : UInt8) (d : Iter) (h : i.root pj = .ok (ty, d)) : ty = tagToType d.t := by
   unfold Iter.root at h
   split at h
   · cases h
@@ -257,64 +267,23 @@ theorem root_type (pj : PJ) (i : Iter) (ty : UInt8) (d : Iter) (h : i.root pj = 
         rw [hr] at h
         simp only [Res.bind_ok, Res.ok.injEq, Prod.mk.injEq] at h
         obtain ⟨rfl, rfl⟩ := h
-        rfl
+        rw [advanceInto_tag pj _ _ _ hr]
       | error e => rw [hr] at h; cases h
       | panic => rw [hr] at h; cases h
       | diverge => rw [hr] at h; cases h
 
-/-- … the source reports `Tag.Type()` of the tag `AdvanceInto` returned: `TagToType[d.t]`.  They agree exactly when the
-    first element of the root lies inside the root's view (`off + addNext ≤ lim`, so that `Iter.Type()` does not
-    answer `TypeNone`), or the tag has no type anyway. -/
-def RootTypeOK (pj : PJ) (i : Iter) : Prop :=
-  ∀ ty d, i.root pj = .ok (ty, d) → (d.off : Int) + d.addNext ≤ d.lim ∨ tagToType d.t = typeNone
-
-theorem root_type_agrees (pj : PJ) (i : Iter) (h : RootTypeOK pj i) (ty : UInt8) (d : Iter)
-    (hr : i.root pj = .ok (ty, d)) : ty = tagToType d.t := by
+/-- inside the view (`off + addNext ≤ lim`), or when the tag has no type, it is also `Iter.Type()` of the new iterator -/
+theorem root_type_eq_type (pj : PJ) (i : Iter) (ty : UInt8) (d : Iter) (hr : i.root pj = .ok (ty, d))
+    (h : (d.off : Int) + d.addNext ≤ d.lim ∨ tagToType d.t = typeNone) : ty = d.type := by
   rw [root_type pj i ty d hr]
   unfold Iter.type
-  rcases h ty d hr with h1 | h1
+  rcases h with h1 | h1
   · rw [if_neg (by omega)]
   · split
-    · exact h1.symm
+    · exact h1
     · rfl
 
-/-- outside `RootTypeOK` the two differ: the hypothesis excludes exactly the inputs on which the model is wrong -/
-theorem root_type_differs (pj : PJ) (i : Iter) (ty : UInt8) (d : Iter) (hr : i.root pj = .ok (ty, d))
-    (h : ¬ ((d.off : Int) + d.addNext ≤ d.lim ∨ tagToType d.t = typeNone)) : ty ≠ tagToType d.t := by
-  rw [root_type pj i ty d hr]
-  unfold Iter.type
-  simp only [not_or] at h
-  rw [if_pos (by omega)]
-  exact fun hh => h.2 hh.symm
-
-/-- `Iter.Root(dst)` against the hand model `Iter.root`, `Type` included -/
-def SimRootM (tape : Array UInt64) (e : Env) (b : Bool) (i : Iter) (o : Out) (r : Res (UInt8 × Iter)) : Prop :=
-  match r with
-  | .ok (ty, d) => ∃ s, o = .ret s [.u8 ty, .bool true, .bool false] ∧ s.tape = tape ∧
-      iterAt s.env "i" = some i ∧ iterAt s.env "dst" = some d ∧ (∀ k, k ∉ rootKeys → s.env.get k = e.get k)
-  | .error _ => o = .ret ⟨e, tape⟩ [.u8 0, .bool (!b), .bool true]
-  | .panic => o = .panic
-  | .diverge => False
-
-/-- **`Root(dst)` IS `Iter.root`** wherever the model's `Type` is right (`RootTypeOK`): both for `dst == nil` (a fresh
-    copy of `i`) and for a caller's `dst` (only `cur`, `off`, `t` copied, `addNext`, `lim` set: all five fields then
-    coincide with the copy).  Fuel `i.lim + 8`. -/
-theorem root_sim (pj : PJ) (i : Iter) (b : Bool) (e : Env) (fuel : Nat)
-    (hI : iterAt e "i" = some i) (hN : e.get "dst==nil" = some (.bool b))
-    (hl : i.lim ≤ pj.tape.size) (hlim : i.lim < 2^63) (hf : i.lim + 8 ≤ fuel) (hty : RootTypeOK pj i) :
-    SimRootM pj.tape e b i (runFun goFuns goIter_Root fuel ⟨e, pj.tape⟩) (i.root pj) := by
-  have h := root_sim_exact pj i b e fuel hI hN hl hlim hf
-  cases hr : i.root pj with
-  | ok p =>
-    obtain ⟨ty, d⟩ := p
-    rw [hr] at h
-    obtain ⟨s, h1, h2⟩ := h
-    exact ⟨s, by rw [h1, root_type_agrees pj i hty ty d hr], h2⟩
-  | error err => rw [hr] at h; exact h
-  | panic => rw [hr] at h; exact h
-  | diverge => rw [hr] at h; exact h.elim
-
-/-! ### the witness: a root whose payload cuts its first (two-word) element in half -/
+/-! ### the former witness: a root whose payload cuts its first (two-word) element in half -/
 
 /-- tape `[root|3, integer, 5, root|0]`: the root's payload 3 puts the end of its view after the integer's tag word -/
 def rootWitnessPJ : PJ := { tape := #[mkWord 114 3, mkWord 108 0, 5, mkWord 114 0], strings := #[], msg := #[] }
@@ -326,8 +295,11 @@ theorem rw1 : rootWitnessPJ.tape[1]? = some (mkWord 108 0) := rfl
 theorem rwtag : tagOf (mkWord 108 0) = 108 := by decide
 theorem rwpay : payloadOf (mkWord 108 0) = 0 := by decide
 
-/-- the hand model on the witness: the element's `Type` is `TypeNone` (0), because `off + addNext = 3 > lim = 2` -/
-theorem rootWitness_model : rootWitnessI.root rootWitnessPJ = .ok (0, rootWitnessD) := by
+theorem rootWitness_tag : tagToType rootWitnessD.t = 3 := by decide +kernel
+
+/-- the model on the witness: the element's `Type` is `TypeInt` (3), although `off + addNext = 3 > lim = 2`
+    (`Iter.Type()` of the returned iterator is `TypeNone`: the earlier model's answer) -/
+theorem rootWitness_model : rootWitnessI.root rootWitnessPJ = .ok (3, rootWitnessD) := by
   unfold Iter.root
   simp [rootWitnessI, tagRoot]
   unfold Iter.advanceInto
@@ -337,28 +309,21 @@ theorem rootWitness_model : rootWitnessI.root rootWitnessPJ = .ok (0, rootWitnes
   have hcn : ({ lim := 2, off := 2, addNext := 0, cur := 0, t := 108 } : Iter).calcNext true =
       { lim := 2, off := 2, addNext := 1, cur := 0, t := 108 } := by decide
   rw [hcn]
-  simp [Iter.type, rootWitnessD, typeNone]
+  have h108 : tagToType 108 = 3 := rootWitness_tag
+  simp [rootWitnessD, h108]
 
-theorem rootWitness_tag : tagToType rootWitnessD.t = 3 := by decide +kernel
+example : rootWitnessD.type = 0 := by decide
 
-/-- the source on the witness, with either kind of `dst`: the element's `Type` is `TypeInt` (3) — not the model's 0 -/
+/-- the source on the witness, with either kind of `dst`: the element's `Type` is `TypeInt` (3), as the model says -/
 theorem rootWitness_source (b : Bool) (e : Env) (hI : iterAt e "i" = some rootWitnessI)
     (hN : e.get "dst==nil" = some (.bool b)) :
     ∃ s, runFun goFuns goIter_Root 12 ⟨e, rootWitnessPJ.tape⟩ = .ret s [.u8 3, .bool true, .bool false] ∧
       iterAt s.env "dst" = some rootWitnessD := by
-  have h := root_sim_exact rootWitnessPJ rootWitnessI b e 12 hI hN (by decide) (by decide) (by decide)
+  have h := root_sim rootWitnessPJ rootWitnessI b e 12 hI hN (by decide) (by decide) (by decide)
   have h' : SimRoot rootWitnessPJ.tape e b rootWitnessI (runFun goFuns goIter_Root 12 ⟨e, rootWitnessPJ.tape⟩)
-      (.ok (0, rootWitnessD)) := rootWitness_model ▸ h
+      (.ok (3, rootWitnessD)) := rootWitness_model ▸ h
   obtain ⟨s, h1, _, _, h4, _⟩ := h'
-  rw [rootWitness_tag] at h1
   exact ⟨s, h1, h4⟩
-
-theorem rootWitness_not_ok : ¬ RootTypeOK rootWitnessPJ rootWitnessI := by
-  intro h
-  rcases h 0 rootWitnessD rootWitness_model with h1 | h1
-  · simp [rootWitnessD] at h1
-  · rw [rootWitness_tag] at h1
-    exact absurd h1 (by decide)
 
 /-! ## `Iter.String` -/
 
@@ -907,8 +872,8 @@ theorem array_returns (i : Iter) (b : Bool) (e : Env) (tape : Array UInt64) (fue
   · obtain ⟨s, hs, _⟩ := h; exact ⟨s, _, hs⟩
   · obtain ⟨s, hs, _⟩ := h; exact ⟨s, _, hs⟩
 
-theorem SimRootM.iff {tape : Array UInt64} {e : Env} {b : Bool} {i : Iter} {o : Out} {r : Res (UInt8 × Iter)}
-    (h : SimRootM tape e b i o r) :
+theorem SimRoot.iff {tape : Array UInt64} {e : Env} {b : Bool} {i : Iter} {o : Out} {r : Res (UInt8 × Iter)}
+    (h : SimRoot tape e b i o r) :
     (∀ ty d, r = .ok (ty, d) ↔ ∃ s, o = .ret s [.u8 ty, .bool true, .bool false] ∧ iterAt s.env "dst" = some d) ∧
     ((∃ err, r = .error err) ↔ ∃ s x y, o = .ret s [x, y, .bool true]) ∧
     (r = .panic ↔ o = .panic) := by
@@ -929,7 +894,7 @@ theorem SimRootM.iff {tape : Array UInt64} {e : Env} {b : Bool} {i : Iter} {o : 
     · intro h'; cases h'
     · intro h'; cases h'
   | error err =>
-    simp only [SimRootM] at h
+    simp only [SimRoot] at h
     subst h
     refine ⟨fun ty' d' => ⟨?_, ?_⟩, ⟨fun _ => ⟨_, _, _, rfl⟩, fun _ => ⟨err, rfl⟩⟩, ⟨?_, ?_⟩⟩
     · intro h'; cases h'
@@ -937,7 +902,7 @@ theorem SimRootM.iff {tape : Array UInt64} {e : Env} {b : Bool} {i : Iter} {o : 
     · intro h'; cases h'
     · intro h'; cases h'
   | panic =>
-    simp only [SimRootM] at h
+    simp only [SimRoot] at h
     subst h
     refine ⟨fun ty' d' => ⟨?_, ?_⟩, ⟨?_, ?_⟩, ⟨fun _ => rfl, fun _ => rfl⟩⟩
     · intro h'; cases h'
@@ -1006,8 +971,8 @@ def apiFuel (pj : PJ) (i : Iter) (v : View) (bits : UInt64) : Nat :=
 /-- **`Iter.Object`, `Iter.Array`, `Iter.Root`, `ParsedJson.stringAt`+`Iter.String`, `floatToString`, `Iter.StringCvt`,
     `Object.NextElement` of /repo, as translated, ARE the hand model** — for every iterator `i` whose view lies in the
     tape and whose `len`/`off` are Go `int`s, both values of the hidden parameter `dst == nil`, any initial `*dst`,
-    every float64, every view `v` of the tape; with one exception, stated exactly: the `Type` returned by `Root`
-    (`SimRoot`: the source returns `TagToType[d.t]`; it is the model's `Type` iff `RootTypeOK`).
+    every float64, every view `v` of the tape, without exception (the `Type` returned by `Root` is `TagToType[tag]` on
+    both sides).
     The abstract-store versions (`object_sim` … `nextElement_sim`) apply to any caller's frame. -/
 theorem go_api_source_tie (pj : PJ) (hb : BufOK pj) (i d0 : Iter) (dv v : View) (b : Bool) (bits : UInt64)
     (hl : i.lim ≤ pj.tape.size) (hlim : i.lim < 2^63) (hoff : i.off < 2^63) (hv : v.lim ≤ pj.tape.size)
@@ -1015,10 +980,8 @@ theorem go_api_source_tie (pj : PJ) (hb : BufOK pj) (i d0 : Iter) (dv v : View) 
     -- Object, Array
     SimView pj.tape (viewStore i dv b) i (runFun goFuns goIter_Object fuel ⟨viewStore i dv b, pj.tape⟩) i.object ∧
     SimView pj.tape (viewStore i dv b) i (runFun goFuns goIter_Array fuel ⟨viewStore i dv b, pj.tape⟩) i.array ∧
-    -- Root: exactly, and against the model's `Type`
+    -- Root, the returned `Type` included
     SimRoot pj.tape (rootStore i d0 b) b i (runFun goFuns goIter_Root fuel ⟨rootStore i d0 b, pj.tape⟩) (i.root pj) ∧
-    (RootTypeOK pj i →
-      SimRootM pj.tape (rootStore i d0 b) b i (runFun goFuns goIter_Root fuel ⟨rootStore i d0 b, pj.tape⟩) (i.root pj)) ∧
     -- String (through stringAt), StringCvt
     SimBytes pj (fun e' => ∀ k, e'.get k = (envOf "i" i ++ bufEnv pj).get k)
       (runFun goFuns goIter_String fuel ⟨envOf "i" i ++ bufEnv pj, pj.tape⟩) (i.stringBytes pj) ∧
@@ -1032,8 +995,7 @@ theorem go_api_source_tie (pj : PJ) (hb : BufOK pj) (i d0 : Iter) (dv v : View) 
   have hc3 : 3 ≤ cvtFuel pj i := by unfold cvtFuel; omega
   refine ⟨object_sim i b _ pj.tape fuel (viewStore_i i dv b) (viewStore_nil i dv b) hlim hoff,
     array_sim i b _ pj.tape fuel (viewStore_i i dv b) (viewStore_nil i dv b) hlim,
-    root_sim_exact pj i b _ fuel (rootStore_i i d0 b) (rootStore_nil i d0 b) hl hlim (by omega),
-    fun hty => root_sim pj i b _ fuel (rootStore_i i d0 b) (rootStore_nil i d0 b) hl hlim (by omega) hty,
+    root_sim pj i b _ fuel (rootStore_i i d0 b) (rootStore_nil i d0 b) hl hlim (by omega),
     string_sim pj i _ hl hb fuel (by omega) (GoMarshal.frame_iter pj i) (GoMarshal.frame_keeps pj i).2.1
       (GoMarshal.frame_keeps pj i).2.2,
     stringCvt_sim pj i _ hl hb fuel (by omega) (GoMarshal.frame_iter pj i) (GoMarshal.frame_keeps pj i).2.1
